@@ -35,8 +35,13 @@ func (p Polynomial) Clone() Polynomial {
 		}
 	}
 
+	// The interval bounds are big numbers: an assignment would share their storage with p.
+	MetaData := p.MetaData
+	MetaData.A = *new(big.Float).Copy(&p.A)
+	MetaData.B = *new(big.Float).Copy(&p.B)
+
 	return Polynomial{
-		MetaData: p.MetaData,
+		MetaData: MetaData,
 		Coeffs:   Coeffs,
 	}
 }
